@@ -199,6 +199,23 @@ def run(tier, replay_file=None):
             if len(R.violations) >= 20:
                 break
     R.cov["populated_cells_compared"] = cells
+    # 2b. the same histories under the integer embedding x -> 2**53 * x + 1 (an Integer property): total / min / max are
+    #     integers and must equal the population's aggregates exactly, the mean is their correctly rounded quotient
+    A.EMB[0] = (2 ** 53, 1)
+    try:
+        he2 = [h for h in hs if sum(1 for x in h if x["op"] == "Create") >= 2]
+        if quick:
+            he2 = rng.sample(he2, min(len(he2), 1500))
+        for hist in he2 + h2[:20]:
+            bad = abm_replay.replay(hist, TYPES, 100, 2, {"stats"}, max_ids=8)
+            R.add("integer_embedding_histories")
+            if bad:
+                bad["clause"] = "Integer property (values 2^53*x+1): " + bad["clause"]
+                R.violation(bad["clause"], bad)
+                if len(R.violations) >= 20:
+                    break
+    finally:
+        A.EMB[0] = None
     # 3. spec -> code through bptk.run_scenarios (df / dict / json, selections)
     RS_T = '{<<0,2,TRUE,100>>, <<1,2,TRUE,50>>, <<0,1,TRUE,25>>, <<2,2,TRUE,50>>, <<1,3,TRUE,100>>}'   # bptk always collects
     h3, _ = gen.histories("Abm", consts(8, 60, 5, '{"Configure","PlanSet","PlanDel","PlanEnd","Run"}', runspecs=RS_T, configs=CONFIGS, ahead=3),
@@ -238,6 +255,6 @@ def run(tier, replay_file=None):
             break
     if ctl is None or abm_replay.replay(ctl, TYPES, 100, 2, {"stats"}) is None:
         raise common.Machinery("negative control not rejected")
-    R.assumptions += ["property values are multiples of 1/2 in {-2, 0, 1, 2.5}; populations <= 8 agents, 2 types, 2 states",
+    R.assumptions += ["property values are multiples of 1/2 in {-2, 0, 1, 2.5}, and the integers 2^53*x+1 for x in {-4, 0, 2, 5}; populations <= 8 agents, 2 types, 2 states",
                       "a time missing from a returned table is read as zero; only states populated at some recorded time are selected"]
     return R.finish()
